@@ -660,6 +660,7 @@ pub fn run(tier: Tier) -> i32 {
             Fate::Died { how } => st.violation(&comp, "does_not_abort", size, || how.clone(), || json!({"app": c.app_name, "what": c.what, "batch": c.batch})),
         }
     }
+    zero_parallelism(&mut st);
     let by_dev = |d: u8| all.iter().filter(|c| c.deviations == d).count();
     finish(
         &info,
@@ -675,7 +676,73 @@ pub fn run(tier: Tier) -> i32 {
     )
 }
 
+
+/// an application configured with `parallelism = 0` (the loader accepts it) whose runs state their own parallelism: the
+/// per-run value decides the worker bins, so every batch is served; without a per-run value the call may refuse to run, but
+/// no batch may take the process down
+fn zero_parallelism(st: &mut Stats) {
+    let scratch = Scratch::new("c12z");
+    let mut spec = AppSpec::simple(base_net());
+    spec.parallelism = 0;
+    let app = match spec.build(&scratch.path.join("app")) {
+        Ok(a) => a,
+        Err(e) => {
+            // a loader that refuses the value leaves nothing to run
+            st.outcome(&format!("parallelism_zero_refused_by_loader: {}", e.chars().take(60).collect::<String>()));
+            return;
+        }
+    };
+    let valid = json!({"origin_vertex": 0, "destination_vertex": 4});
+    let bad = json!({"origin_vertex": "x", "destination_vertex": 4});
+    let batches: Vec<(&str, Vec<Value>)> = vec![
+        ("empty_batch", vec![]),
+        ("valid_query", vec![valid.clone()]),
+        ("failing_query", vec![bad.clone()]),
+        ("not_an_object", vec![json!(5)]),
+        ("mixed_batch", vec![bad.clone(), valid.clone(), json!([1]), valid.clone()]),
+    ];
+    for (name, batch) in batches.iter() {
+        for run_par in [None, Some(1u64), Some(2), Some(3)] {
+            st.evaluations += 1;
+            st.transitions += 1;
+            st.traces += 1;
+            st.states += 1;
+            st.nontrivial += 1;
+            let cfg = run_par.map(|p| json!({"parallelism": p}));
+            let comp = format!("application_parallelism_zero.{}", if run_par.is_some() { "run_states_parallelism" } else { "run_states_nothing" });
+            let case = || json!({"app": "simple", "configured_parallelism": 0, "run_configuration": cfg, "what": name, "batch": batch});
+            match guarded(|| app.run(batch.clone(), cfg.as_ref()).map_err(|e| e.to_string())) {
+                Err(p) => st.violation(&comp, "no_panic", batch.len() as u64, || p.clone(), case),
+                Ok(Err(e)) => {
+                    if run_par.is_some() {
+                        st.violation(&comp, "call_returns_responses_not_an_error", batch.len() as u64, || e.clone(), case);
+                    } else {
+                        st.outcome("parallelism_zero_run_refused");
+                    }
+                }
+                Ok(Ok(r)) => {
+                    if r.len() == batch.len() {
+                        st.pass("one_response_per_query");
+                    } else {
+                        st.violation(&comp, "one_response_per_query", batch.len() as u64, || format!("{} queries, {} responses", batch.len(), r.len()), case);
+                    }
+                }
+            }
+        }
+    }
+}
+
 pub fn replay(case: &Value) -> i32 {
+    let case = if case.get("case").is_some() && case.get("app").is_none() { &case["case"] } else { case };
+    if case.get("configured_parallelism").and_then(|v| v.as_u64()) == Some(0) {
+        // the whole section is run again (twenty calls)
+        let mut st = Stats::new();
+        zero_parallelism(&mut st);
+        for (k, g) in st.violations.iter() {
+            println!("REPLAY-VIOLATION {} ({} cases) {}", k, g.count, g.detail);
+        }
+        return if st.violations.is_empty() { 0 } else { 1 };
+    }
     let name = case["app"].as_str().unwrap_or("");
     let defs = apps();
     let def = match defs.iter().find(|d| d.name == name) {
